@@ -488,6 +488,10 @@ fn frontends_case(ctx: &mut Ctx, rng: &mut Rng) {
     let info = json!({"clauses": clauses_json(&cl)});
     ctx.case_eval(if t.is_trivial() { None } else { Some(crate::rng::hash_str(&info.to_string())) });
     let native_cnf = clauses_to_cnf(&cl);
+    // the SDD / d-DNNF builders created through C cannot be freed through C (no free
+    // function is exported), so keep their tables small: the capacity hook is
+    // thread-local and applies to builders created behind the C boundary as well
+    crate::caps::set_unique(Some(64));
     unsafe {
         // cnf_new + literal_new
         let mut lits: Vec<Vec<Literal>> = cl.iter().map(|c| c.iter().map(|(v, p)| literal_new(VarLabel::new(*v as u64), *p)).collect()).collect();
@@ -608,6 +612,7 @@ fn frontends_case(ctx: &mut Ctx, rng: &mut Rng) {
         // the remaining boxes (cnf, orders, trees, builders) are leaked like a C client
         // without free functions would; leak checking is off for this workload
     }
+    crate::caps::reset();
     if ctx.wants_sample() {
         ctx.sample(json!({"regime": "frontends", "input": info}));
     }
